@@ -4,7 +4,11 @@
 //!
 //! case = one generated IOTA document packed with `IotaDocument::pack`, wrapped by the harness into an
 //! `AliasOutput` whose state controller / governor are Ed25519 or alias addresses, and unpacked for
-//! the same DID or for another DID. Oracle (from the statement): the document that comes back equals
+//! the same DID or for another DID (other network and tag, same tag on another network, same network with another
+//! tag). The alias id the output itself carries is varied independently of the DID passed in: that DID's tag, an
+//! unrelated tag, the tag the document was packed with (or of one of its controllers), a tag one bit away from the
+//! passed DID's, or the null alias id; the expectation is always the model rendered for the DID that was PASSED to
+//! `unpack_from_output`. Oracle (from the statement): the document that comes back equals
 //! the packed one, ledger address fields excepted; when the state controller is an alias address the
 //! library documents that it adds that alias' DID to the controllers, so there the controller set
 //! must be the original set plus at most that DID (nothing dropped, foreign DIDs untouched) and
@@ -284,8 +288,10 @@ fn main() {
     "alias-output stage: case = generated IOTA document (self/foreign methods in every scope, references, services, 0-3 \
      controllers, alsoKnownAs, custom properties, metadata) packed with IotaDocument::pack, wrapped into an AliasOutput with \
      Ed25519 or alias state-controller/governor addresses and read back with IotaDocument::unpack_from_output for the same or \
-     another DID; expected document rendered by the harness model. distinct = (state controller kind, governor kind, #controllers, \
-     same/other DID, alias controller already listed). Block level: case = block with a transaction payload of 1-5 outputs \
+     another DID (other net+tag / same tag other net / same net other tag), the output's own alias id being that DID's tag, an \
+     unrelated tag, the packed document's (or a controller's) tag, a tag one bit off, or null; expected document = harness model \
+     rendered for the DID passed in. distinct = (state controller kind, governor kind, #controllers, \
+     target relation, alias id kind, alias controller already listed). Block level: case = block with a transaction payload of 1-5 outputs \
      (alias outputs with packed documents for the same/another DID, set or null alias id, optional trailing bytes; empty-metadata \
      alias outputs; basic outputs) of which 0-2 alias outputs carry state metadata the statement says is rejected (wrong \
      marker/version/encoding byte, length prefix beyond the data, truncated frame, foreign bytes without the marker), offered to \
@@ -324,15 +330,65 @@ fn main() {
     };
     // target DID first (the alias DID the library derives lives on the target's network)
     let same = rng.chance(2, 3);
-    let (target_net, target_tag) = if same { (m.net.clone(), m.tag.clone()) } else { (rng.pick(&NETS).to_string(), rng.bytes(32)) };
+    let relation: &str = if same { "same" } else { *rng.pick(&["other-net-other-tag", "same-tag-other-net", "same-net-other-tag"]) };
+    let (target_net, target_tag) = match relation {
+      "same" => (m.net.clone(), m.tag.clone()),
+      "same-tag-other-net" => {
+        let others: Vec<&str> = NETS.iter().copied().filter(|x| *x != m.net).collect();
+        (rng.pick(&others).to_string(), m.tag.clone())
+      }
+      "same-net-other-tag" => (m.net.clone(), rng.bytes(32)),
+      _ => (rng.pick(&NETS).to_string(), rng.bytes(32)),
+    };
     let target = did_str(&target_net, &target_tag);
     let target_did = IotaDID::parse(&target).expect("harness DID");
     let (sc_addr, gov_addr, listed) = gen_addresses(&mut rng, &m, &target_net);
-    let out: AliasOutput = alias_output(AliasId::new(target_tag.clone().try_into().unwrap()), packed, sc_addr, gov_addr).expect("harness alias output");
+    // The alias id the output itself carries is independent of the DID the caller unpacks for: the statement's
+    // expectation is the model rendered for the DID that is PASSED IN, whatever the output says about itself.
+    let aid_kind: &str = *rng.pick(&ALIAS_ID_KINDS);
+    let out_tag: Option<Vec<u8>> = match aid_kind {
+      "target-tag" => Some(target_tag.clone()),
+      "null" => None,
+      "unrelated-tag" => Some(rng.bytes(32)),
+      "near-target-tag" => {
+        // differs from the target's tag in a single bit
+        let mut t = target_tag.clone();
+        let pos = rng.usize(32);
+        t[pos] ^= 1u8 << rng.below(8);
+        Some(t)
+      }
+      _ => {
+        // "packed-tag": the tag of the DID the document was packed with; for the same DID that IS the target's tag, so
+        // there the tag of one of the document's foreign controllers (or a fresh one) is used instead
+        if !same && m.tag != target_tag {
+          Some(m.tag.clone())
+        } else {
+          let foreign = m.controllers.iter().find(|c| **c != m.me).map(|c| {
+            let hexpart = &c[c.len() - 64..];
+            (0..32).map(|k| u8::from_str_radix(&hexpart[2 * k..2 * k + 2], 16).unwrap()).collect::<Vec<u8>>()
+          });
+          Some(foreign.unwrap_or_else(|| rng.bytes(32)))
+        }
+      }
+    };
+    let out_alias_id = match &out_tag {
+      Some(t) => AliasId::new(t.clone().try_into().unwrap()),
+      None => AliasId::null(),
+    };
+    let aid_differs = out_tag.as_ref() != Some(&target_tag);
+    let out: AliasOutput = match alias_output(out_alias_id, packed, sc_addr, gov_addr) {
+      Ok(o) => o,
+      Err(_) => {
+        // the SDK's own rules (an alias may not be its own state controller/governor): nothing to judge
+        rep.inc("alias_output_unbuildable");
+        continue;
+      }
+    };
     let sc_is_alias = matches!(sc_addr, Address::Alias(_));
-    let case = json!({"document": m.doc, "self": m.me, "unpacked_for": target, "state_controller": addr_kind(&sc_addr),
-      "alias_already_a_controller": listed, "governor": addr_kind(&gov_addr)});
-    rep.distinct("nontrivial", &format!("alias-output|sc{}|gov{}|c{}|same{}|listed{}", sc_is_alias, matches!(gov_addr, Address::Alias(_)), m.controllers.len(), same, listed));
+    let case = json!({"document": m.doc, "self": m.me, "unpacked_for": target, "target_relation": relation,
+      "output_alias_id": out_tag.as_ref().map(|t| format!("0x{}", hex(t))).unwrap_or_else(|| "null".into()), "output_alias_id_kind": aid_kind,
+      "state_controller": addr_kind(&sc_addr), "alias_already_a_controller": listed, "governor": addr_kind(&gov_addr)});
+    rep.distinct("nontrivial", &format!("alias-output|sc{}|gov{}|c{}|{}|aid-{}|listed{}", sc_is_alias, matches!(gov_addr, Address::Alias(_)), m.controllers.len(), relation, aid_kind, listed));
     let got = match catch(|| IotaDocument::unpack_from_output(&target_did, &out, rng_free_bool(i))) {
       Err(p) => {
         rep.violation(&format!("alias-output:unpack-panic@{}", p.file_only()), &format!("{} at {}", p.msg, p.loc()), case);
@@ -346,7 +402,18 @@ fn main() {
     };
     rep.inc("alias_output_unpacked");
     rep.inc(if same { "alias_output_same_did" } else { "alias_output_other_did" });
-    let Some(j) = judge(&mut rep, "alias-output", &got, &m, &target, &target_net, &sc_addr, &case) else { continue };
+    rep.inc(&format!("alias_output_target_{}", relation.replace('-', "_")));
+    // a document that is not the model rendered for the DID passed in gets its own signature when the output's alias id
+    // is not that DID's tag (the library has then taken the DID from somewhere else than its argument)
+    let prefix = if !aid_differs { "alias-output" } else if out_tag.is_none() { "alias-output:null-alias-id" } else { "alias-output:alias-id-not-of-passed-did" };
+    let Some(j) = judge(&mut rep, prefix, &got, &m, &target, &target_net, &sc_addr, &case) else { continue };
+    rep.inc(&format!("alias_output_alias_id_{}", aid_kind.replace('-', "_")));
+    if aid_differs {
+      rep.inc("alias_output_alias_id_differs_from_passed_did");
+      if !same {
+        rep.inc("alias_output_alias_id_differs_other_did");
+      }
+    }
     if !j.want_c.is_empty() {
       rep.inc("alias_output_with_controllers");
       if j.alias_did.is_none() {
@@ -360,6 +427,9 @@ fn main() {
   block_stage(&args, scale, &mut rep);
   rep.finish();
 }
+
+/// What the alias id of the output is in relation to the DID passed to `unpack_from_output`.
+const ALIAS_ID_KINDS: [&str; 5] = ["target-tag", "unrelated-tag", "packed-tag", "near-target-tag", "null"];
 
 fn rng_free_bool(i: u64) -> bool {
   i % 2 == 0
